@@ -169,9 +169,10 @@ def ob_match_geo(s0: float, s1: float, t0: float, t1: float, w0: float, w1: floa
 def plan():
     q = ("quick", "thorough")
     obs = []
-    for (n, m, kind) in ((1, 1, "stamp"), (1, 1, "interval"), (2, 1, "stamp"), (1, 2, "interval"), (2, 2, "stamp"),
-                         (2, 2, "interval")):
-        quick = n * m <= 2
+    # (2x2 with the real compute_affinity was tried: undecided after 900 + 1800 s, so it is not part of the plan)
+    for (n, m, kind) in ((1, 1, "stamp"), (1, 1, "interval"), (2, 1, "stamp"), (1, 2, "interval"), (2, 1, "interval"),
+                         (1, 2, "stamp")):
+        quick = (n, m, kind) in ((1, 1, "stamp"), (1, 1, "interval"), (2, 1, "stamp"), (1, 2, "interval"))
         obs.append(Ob("match-geo-%dx%d-%s" % (n, m, kind), ob_match_geo, "real", 900,
                       dict(n=n, m=m, kind=kind), q if quick else ("thorough",), twins=("paired", "unpaired"),
                       twin_timeout=300))
@@ -199,7 +200,7 @@ INFO = dict(
         "CrossHair 0.0.110 + z3 (Real)",
     ],
     outside=["more than 3 geometries per side", "the geometric affinity values themselves (C06)",
-             "geometric obligations (real compute_affinity, time stamps / intervals, <= 2 per side) complement the "
+             "geometric obligations (real compute_affinity, time stamps / intervals, 2x1 and 1x2 at most) complement the "
              "symbolic-matrix ones, which assume match.py treats geometries as opaque (a code change that inspects "
              "them makes those obligations inconclusive, not failing)"],
 )
